@@ -171,11 +171,11 @@ func (s *Shard) PlanLevel(level int) []tsm1.CompactionGroup {
 }
 
 // CompactLevel plans level and runs every group through the engine's strategy. Returns #groups.
-func (s *Shard) CompactLevel(level int, ppb int) int {
+func (s *Shard) CompactLevel(level int, fast bool, ppb int) int {
 	e := s.Eng()
 	groups := s.PlanLevel(level)
 	for _, g := range groups {
-		e.VerifCompactGroup(g, level < 3 || ppb%2 == 1, level, ppb)
+		e.VerifCompactGroup(g, fast, level, ppb)
 	}
 	e.CompactionPlan.Release(groups)
 	return len(groups)
@@ -202,6 +202,50 @@ func (s *Shard) CompactOptimize(ppb int) int {
 	}
 	e.CompactionPlan.Release(groups)
 	return len(groups)
+}
+
+// Generations returns the live TSM file paths grouped by generation, in generation order.
+func (s *Shard) Generations() [][]string {
+	var out [][]string
+	last := -1
+	for _, f := range s.Eng().FileStore.Files() {
+		gen, _, err := tsm1.DefaultParseFileName(f.Path())
+		if err != nil {
+			continue
+		}
+		if gen != last {
+			out = append(out, nil)
+			last = gen
+		}
+		out[len(out)-1] = append(out[len(out)-1], f.Path())
+	}
+	return out
+}
+
+// CompactRun compacts the contiguous run of generations [from, from+n) — a group the planner
+// could legitimately hand out — through the engine's own strategy object.
+// mode: "fast", "level", "full", "optimize". Returns false if the run does not exist.
+func (s *Shard) CompactRun(from, n int, mode string, ppb int) bool {
+	gens := s.Generations()
+	if n < 1 || from < 0 || from+n > len(gens) {
+		return false
+	}
+	var group tsm1.CompactionGroup
+	for _, g := range gens[from : from+n] {
+		group = append(group, g...)
+	}
+	e := s.Eng()
+	switch mode {
+	case "fast":
+		e.VerifCompactGroup(group, true, 1, ppb)
+	case "level":
+		e.VerifCompactGroup(group, false, 3, ppb)
+	case "full":
+		e.VerifFullCompactGroup(group, ppb)
+	default:
+		e.VerifOptimizeCompactGroup(group, ppb)
+	}
+	return true
 }
 
 func (s *Shard) TSMFiles() []string {
